@@ -293,6 +293,13 @@ func c05R4(c *Ctx, rule string) {
 	if ld, ok := written.(*ssa.UnOp); ok && ld.Op == token.MUL && ld.X == bufPtr {
 		fromPool = true
 	}
+	if !fromPool {
+		// written directly as the value built on the pooled buffer (rec := append(…*writeBuf…); Write(rec)): its bytes
+		// start with the pooled content
+		if q, okQ := newBsEval(p).eval(written); okQ && len(q) > 0 && q[0].Kind == "sym" && q[0].Src == bufPtr && q[0].Lo == 0 {
+			fromPool = true
+		}
+	}
 	c.Check(fromPool, rule, "the bytes written are this call's pooled buffer", c.at(writes[0]), "Conn.Write(*writeBuf), writeBuf = pool.Get()", "the underlying Write sends "+Expr(written)+", not the buffer obtained from the pool in this call")
 	// appends: length bytes then payload (any of append(b, hi, lo), binary.BigEndian.AppendUint16(b, uint16(len)), append(b, in...))
 	var appendStores []*ssa.Store
